@@ -77,6 +77,8 @@ class PD:
             out = SFrame({k: STensor((sel.shape[0],), (lambda cf: (lambda i: cf(sel.at(i))))(c.fn), c.dtype)
                           for k, c in fr.columns.items()}, sel.shape[0])
             out.selection = sel
+            if hasattr(fr, 'from_rows'):
+                out.from_rows = fr.from_rows
             return out
         if isinstance(idx, slice):
             from .npmodel import _clamp_slice
@@ -102,7 +104,11 @@ class PD:
             if kwargs.get('drop'):
                 cols = {}
             cols.update(fr.columns)
-            return SFrame(cols, fr.nrows)
+            out = SFrame(cols, fr.nrows)
+            for a in ('selection', 'from_rows'):
+                if hasattr(fr, a):
+                    setattr(out, a, getattr(fr, a))
+            return out
         if meth == 'iterrows':
             from .interp import SymIter
             n = fr.nrows
